@@ -42,7 +42,7 @@ def run(ctx, chk):
         chk.ob('C17.Y1', 'doc:parse', False, 'docs/PROTOCOL.md', 'cannot parse the layout section: %s' % e)
         return
     hdr = layout(fb, '::ShmHeader')
-    rec = layout(fb, 'clock_bound_shm::ClockErrorBound')
+    rec = layout(fb, '::ClockErrorBound')
     if not hdr or not rec:
         chk.missing('C17.Y1', 'layout of ShmHeader / ClockErrorBound')
         return
@@ -81,7 +81,7 @@ def run(ctx, chk):
            'documented total %d bytes; header %d + record %d rounded to 8 = %d' % (d['total'], H, rec['size'], H + rec['size'] + (8 - (H + rec['size']) % 8) % 8))
     # record pointee offset used by both sides = header size
     # ---- Y2
-    _, st, _ = rust_adt(fb, 'clock_bound_shm::ClockStatus')
+    _, st, _ = rust_adt(fb, '::ClockStatus', crate=common.SHM)
     if st:
         got = {v.get('discr', v['index']): v['name'] for v in st['variants']}
         chk.ob('C17.Y2', 'status-encoding', got == d['status'] and st.get('size') == 4, 'docs/PROTOCOL.md',
